@@ -127,3 +127,19 @@ package revocation
 //@   ensures accept: result ==> nrstruct(p) && val(p.Responses["alpha"]) <= val(Parameters.bTwoZk) && p.SignedAccumulator != nil && p.acc != nil && p.acc == p.SignedAccumulator.Accumulator && p.acc.Nu != nil && val(p.Nu) == val(p.acc.Nu) && val(p.Challenge) == val(reconstructedChallenge)
 //@   modifies p.acc, p.SignedAccumulator.Accumulator
 //@   mustfail canary: !result
+
+//@ # ---- witness updates (C09, C10) ----
+//@ fold eprod(s, i) := val(s[i].E) op mul
+//@ # representation invariant of the memoised product: it is the product of the events from productFrom on
+//@ pred prodinv(u) := u.product != nil ==> (len(u.Events) > 0 && u.Events[0].Index <= u.productFrom && u.productFrom - u.Events[0].Index <= len(u.Events) && val(u.product) == eprod(u.Events, u.productFrom - u.Events[0].Index, len(u.Events)))
+
+//@ func (*Update).Product
+//@   property C09
+//@   requires update != nil && evnonnil(update.Events) && prodinv(update)
+//@   requires len(update.Events) == 0 || (update.Events[0].Index <= from && from - update.Events[0].Index <= len(update.Events))
+//@   ensures window: len(update.Events) > 0 ==> val(result) == old(eprod(update.Events, from - update.Events[0].Index, len(update.Events)))
+//@   ensures empty: len(update.Events) == 0 ==> val(result) == 1
+//@   ensures memo: result != nil && update.product == result && (len(update.Events) > 0 ==> update.productFrom == from && prodinv(update))
+//@   modifies update.product, update.productFrom
+//@   loop 0 invariant 0 <= $i && update.product != nil && fresh(update.product) && val(update.product) == old(eprod(update.Events, from - update.Events[0].Index, from - update.Events[0].Index + $i))
+//@   mustfail canary: val(result) == 1
